@@ -442,6 +442,21 @@ Definition obs_c19 (r : resp) (tv jtv : view) (mb : bytes) (fx : sx) : sx :=
   | None => bad_case
   end.
 
+(* overlapping responses: handlers are values, a response is a function of its own handler's
+   payload only; the case lists the payloads whose handlers are being served at the same time *)
+Definition obs_resp (r : resp) (mb : bytes) : sx :=
+  SL [SZ (status r); SZ (ctype_code (ctyp r)); SB (server r); body_sx (body r); SB (wire_exec mb (body r))].
+
+Definition obs_sub (g : cfg) (sub : sx) : sx :=
+  match sub with
+  | SL [p; SB cb; SB mb] =>
+      match sx_payload p with
+      | Some (pl, _) => obs_resp (respond g cb pl) mb
+      | None => bad_case
+      end
+  | _ => bad_case
+  end.
+
 Definition run_c19 (c : sx) : sx :=
   match c with
   | SL [SL [SZ 5; SB ver]; SB cb; SB srv; SZ pd; SZ _; SB mb; jv0; fx] =>
@@ -454,5 +469,8 @@ Definition run_c19 (c : sx) : sx :=
       | Some (pl, tv), Some jtv => obs_c19 (respond {| srv_name := srv; pid := pd |} cb pl) tv jtv mb fx
       | _, _ => bad_case
       end
+  | SL [SZ 7; SZ _; SB srv; SZ pd; SL subs] =>
+      (* (7 mode xserver pid ((payload xcb xmb) ...)): the handlers are served overlapping in time *)
+      SL (map (obs_sub {| srv_name := srv; pid := pd |}) subs)
   | _ => bad_case
   end.
